@@ -22,7 +22,7 @@ WORKERS = {"quick": 4, "thorough": 16}
 
 def plan(tier, seed):
     n = 4 if tier == "quick" else 16
-    per = 800 if tier == "quick" else 2500
+    per = 800 if tier == "quick" else 5000
     return [{"tier": tier, "seed": seed, "start": i * per, "count": per, "shard": i} for i in range(n)]
 
 
